@@ -355,6 +355,9 @@ pub fn c16() -> Result<u64, String> {
         if round % 3 == 0 { let (k, v) = tiles.iter().next_back().unwrap(); pm.add_tile(*k, vec![1, 2, 3, 4]).unwrap(); pm.add_tile(*k, v.clone()).unwrap(); pm.add_tile(*k, v.clone()).unwrap(); }
         let b = write_at(pm, 0).map_err(|e| e.to_string())?.0;
         if a != b { return Err(format!("same logical content, different bytes (insertion order / detour / re-added ids): tiles {:?}, {c:?}", tiles.keys().collect::<Vec<_>>())); }
+        // the same logical content written at other start positions: the archive bytes (from the start position on) are the same
+        for p2 in [16_300u64, 70_001] { let (b2, _) = write_at(build(&tiles, c, &meta), p2).map_err(|e| e.to_string())?;
+            if b2[p2 as usize..] != a[..] { return Err(format!("same logical content, different bytes when written at start position {p2} instead of 0 ({} tiles, {c:?})", tiles.len())); } }
         let c2 = write_at(PMTiles::from_bytes(a.clone()).map_err(|e| e.to_string())?, 0).map_err(|e| e.to_string())?.0;
         if a != c2 { let i = a.iter().zip(&c2).position(|(x, y)| x != y).unwrap_or(a.len().min(c2.len())); return Err(format!("rewriting an archive that was just read back changes byte {i} ({c:?}, {} tiles)", tiles.len())); }
         let mut out = futures::io::Cursor::new(Vec::new());
